@@ -132,6 +132,8 @@ def oracle_case(case) -> list:
     """C14 on what the HTTP responses carried; [] = holds"""
     if case.get("kind") == "manifest":
         return manifest_oracle(case)
+    if case.get("kind") == "walk":
+        return walk_oracle(case, fetch_walk(case))
     if case.get("kind") == "reject":
         import appboot
         _, c = app()
@@ -199,6 +201,175 @@ def manifest_oracle(case) -> list:
             fails.append(f"EventStream@timescale {attrs.get('timescale')} != {s['timescale']}")
         fails += P.oob_oracle(case["event"], s, evs)
     return fails[:5]
+
+
+# ------------------------------------------------------------------ media shape variety: manifest walks
+
+# synthetic video tracks (harness/mp4synth.py, the video is its stream's timing reference: no drift).
+# name -> (timescale, stored segment durations, first decode time)
+WALK_TRACKS = {
+    "c14w1": (240, [960, 960, 960, 192, 960, 960, 960], 0),        # short interior segment (< half nominal)
+    "c14w2": (240, [960, 2400, 300, 960, 100, 960], 0),            # very long / very short interior segments
+    "c14w3": (240, [960, 960, 960, 250], 0),                       # short last segment
+    "c14w4": (240, [960, 400], 0),                                 # two segments
+    "c14w5": (30000, [50050, 50050, 50050, 50050, 10010, 50050, 50050, 50050], 0),   # NTSC-style timescale
+    "c14w6": (90000, [180000, 36000, 180000, 180000, 360000], 0),
+    "c14w7": (600, [1200, 1200, 240, 1200, 1200], 0),
+    "c14w8": (12800, [25600, 51200, 6400, 6400, 25600, 25600], 0),
+    # regular tracks (every stored duration equal): the only shape for which `$Number$` addressing
+    # (number -> n * SegmentTemplate@duration -> nearest stored segment) serves consecutive stored
+    # segments for consecutive numbers; on the irregular tracks above consecutive numbers repeat or
+    # skip stored segments (C02 proves only "within half a segment"), ledger D13m
+    "c14w0": (600, [1200] * 5, 0),
+    "c14w9": (30000, [50050] * 6, 0),
+}
+# (a non-zero first decode time is not used: ledger C02 D10-nonzero-first-decode-time)
+
+
+def regular(name: str) -> bool:
+    durs = WALK_TRACKS.get(name, (240, [960] * 10, 0))[1]
+    return len(set(durs)) == 1
+
+
+def ensure_walk_streams():
+    if _STATE.get("walk_ready"):
+        return
+    import mp4synth
+    a, _ = app()
+    for i, (name, (ts, durs, first)) in enumerate(sorted(WALK_TRACKS.items())):
+        v = mp4synth.make_track("video", ts, durs, samples_per_segment=4, seed=1400 + i, track_id=1,
+                                first_decode_time=first, tfdt_version=1 if first else None)
+        mp4synth.register(a, name, f"C14 walk {name}", {f"{name}_v1": v}, timing_from=f"{name}_v1")
+    _STATE["walk_ready"] = True
+
+
+def walk_urls(case):
+    """fetch the live manifest of the case and return (status, mpd text, rep_timescale,
+    [(listed interval (t, d) or None, media URL)]) – every segment the manifest lists for the video
+    Representation ($Time$: every S of the SegmentTimeline, $Number$: every number whose availability
+    window contains now), minus the first and last one (window edges)"""
+    import appboot
+    import segwalk
+    _, c = app()
+    q = query(case["event"], case["sched"]) + f"&depth={case['depth']}"
+    if case["addressing"] == "time":
+        q += "&timeline=1"
+    url = f"http://localhost/dash/live/{case['stream']}/hand_made.mpd?{q}"
+    with appboot.Clock(case["clock"]):
+        r = segwalk.get(c, url)
+    if r.status_code != 200:
+        return r.status_code, "", None, []
+    mpd = segwalk.parse_mpd(url, r.get_data())
+    reps = [x for x in mpd.reps if x.content_type == "video"]
+    if not reps:
+        return 200, r.get_data(as_text=True), None, []
+    rep = reps[0]
+    out = []
+    if case["addressing"] == "time":
+        if not rep.timeline:
+            return 200, r.get_data(as_text=True), rep.timescale, []
+        for t, d in rep.timeline:
+            out.append(((t, d), rep.media_url(time=t)))
+    else:
+        now_us = int(_parse_iso(case["clock"]).timestamp() * 1_000_000)
+        for n in segwalk.number_window(mpd, rep, now_us):
+            out.append((None, rep.media_url(number=n)))
+    out = out[1:-1][-case.get("max_segments", 40):]
+    return 200, r.get_data(as_text=True), rep.timescale, out
+
+
+def fetch_walk(case) -> dict:
+    import appboot
+    import segwalk
+    _, c = app()
+    ensure_walk_streams()
+    st, _txt, rep_ts, items = walk_urls(case)
+    out = {"manifest_status": st, "rep_timescale": rep_ts, "listed": [i for i, _ in items], "status": [],
+           "segments": [], "urls": [u for _, u in items]}
+    with appboot.Clock(case["clock"]):
+        for _, u in items:
+            r = segwalk.get(c, u)
+            out["status"].append(r.status_code)
+            out["segments"].append(E.read_segment(r.get_data()) if r.status_code == 200 else None)
+    return out
+
+
+def walk_oracle(case, f) -> list:
+    """exactly-once over the run a player fetches from the manifest: against the intervals the
+    SegmentTimeline lists ($Time$) or the intervals of the served segments ($Number$)"""
+    if f["manifest_status"] != 200:
+        return [f"manifest request answered {f['manifest_status']}"]
+    if not f["urls"]:
+        return ["the manifest lists no video segment"]
+    if any(st != 200 for st in f["status"]):
+        bad = [(u.split("/")[-1][:40], st) for u, st in zip(f["urls"], f["status"]) if st != 200][:3]
+        return [f"listed segments not served: {bad}"]
+    if case["addressing"] == "time":
+        run = [list(x) for x in f["listed"]]
+    else:
+        run = [[s["tfdt"], s["trun_duration"]] for s in f["segments"]]
+    ec = {"event": case["event"], "mode": "live", "sched": case["sched"], "rep_timescale": f["rep_timescale"],
+          "run": run}
+    return E.oracle_run(ec, [s["emsg"] for s in f["segments"]])
+
+
+def gen_walk_case(rng, stream: str | None = None):
+    """`stream` given: a `$Time$` walk of that track (run() visits every irregular track each run)"""
+    ensure_walk_streams()
+    name = stream or rng.choice(sorted(WALK_TRACKS) + ["bbb"])
+    addressing = "time" if stream else rng.choice(["time", "time", "number"])
+    if addressing == "number" and not regular(name):
+        name = rng.choice(["bbb", "c14w0", "c14w9"])       # H of $Number$ walks: equal stored durations
+    rep_ts, durs, _first = WALK_TRACKS.get(name, (240, [960] * 10, 0))
+    clock = rng.choice(CLOCKS)
+    event = "ping" if rng.random() < .7 else "scte35"
+    ts = rng.choice([100, 100, 1000, 90000, rep_ts])
+    nominal = max(1, (sum(durs) // len(durs)) * ts // rep_ts)
+    interval = max(1, rng.choice([nominal // 7, nominal // 3, nominal // 2, nominal, nominal * 3 // 2,
+                                  rng.randrange(1, 2 * nominal + 2)]))
+    if event == "scte35":
+        interval = max(interval, nominal // 4, 1)
+    elapsed = int((_parse_iso(clock) - _parse_iso(live_start(clock))).total_seconds())
+    depth = rng.choice([40, 60, 90])
+    if rng.random() < .5:
+        start, count = rng.randrange(0, 3 * interval + 1), 0
+    else:
+        start = max(0, (elapsed - depth - rng.randrange(0, 30)) * ts + rng.randrange(0, interval))
+        count = rng.choice([0, 0, rng.randrange(1, max(2, min(10000, 3 * depth * ts // interval)))])
+    s = dict(start=start, interval=interval, count=count, duration=rng.choice([200, 0]), timescale=ts,
+             version=1 if event == "scte35" else rng.choice([0, 1]), inband=True)
+    if event == "scte35":
+        s["program_id"] = 1620
+    return {"kind": "walk", "stream": name, "clock": clock, "addressing": addressing,
+            "event": event, "sched": s, "depth": depth, "max_segments": 40}
+
+
+def _walk_case(ch, case, lines, jobs):
+    f = fetch_walk(case)
+    ch.count(f"walk:{case['addressing']}:{case['stream']}")
+    fails = walk_oracle(case, f)
+    if fails:
+        ch.oracle_failures.append({"channel": "events_e2e", "case": case, "failures": fails[:4]})
+        return
+    segs = f["segments"]
+    nboxes = sum(len(s["emsg"]) for s in segs)
+    ch.count("walk segments fetched", len(segs))
+    ch.count("walk boxes=0" if nboxes == 0 else "walk boxes>=1")
+    durs = {s["trun_duration"] for s in segs}
+    if len(durs) > 1:
+        ch.count("walk over unequal segment durations")
+    if len(segs) >= 2 and nboxes:
+        ch.nontrivial.add(json.dumps(case, sort_keys=True))
+    # correspondence: the model on the (tfdt, duration) run read from the served bytes
+    ec = {"event": case["event"], "mode": "live", "sched": case["sched"], "rep_timescale": f["rep_timescale"],
+          "run": [[s["tfdt"], s["trun_duration"]] for s in segs]}
+
+    def o(v):
+        return "-" if v is None else str(v)
+    impl = ";".join("+".join(f"{b['id']},{o(b['delta'])},{o(b['pt'])}" for b in s["emsg"]) or "-" for s in segs)
+    lines.append(E.driver_line(ec))
+    jobs.append((case, "boxes per segment (manifest walk)", impl))
+    ch.sample({"case": case, "listed": f["listed"][:3], "boxes": impl[:100]}, limit=2)
 
 
 # ------------------------------------------------------------------ generator
@@ -314,14 +485,19 @@ def run(ctx) -> Channel:
         if (common.CORPUS / "C14").is_dir() else []
     cases += [gen_case(rng, ctx.thorough) for _ in range(ctx.scale(45, 700))]
     cases += [gen_manifest_case(rng) for _ in range(ctx.scale(25, 300))]
+    wrng = ctx.rng("e2e-walk")
+    cases += [gen_walk_case(wrng, stream=n) for n in sorted(WALK_TRACKS) if not regular(n)]
+    cases += [gen_walk_case(wrng) for _ in range(ctx.scale(10, 160))]
     _reject_cases(ch)
     lines, jobs = [], []
     for case in cases:
         ch.evaluations += 1
-        ch.count(f"{case['kind']}:{case['mode']}:{case['event']}")
+        ch.count(f"{case['kind']}:{case.get('mode', 'live')}:{case['event']}")
         try:
             if case["kind"] == "manifest":
                 _manifest_case(ch, case, lines, jobs)
+            elif case["kind"] == "walk":
+                _walk_case(ch, case, lines, jobs)
             else:
                 _segment_case(ch, case, lines, jobs)
         except Exception as e:
@@ -446,8 +622,8 @@ def _manifest_case(ch, case, lines, jobs):
 
 def search(ctx):
     rng = ctx.rng("e2e-search")
-    for _ in range(ctx.scale(150, 800)):
-        case = gen_case(rng, True)
+    for i in range(ctx.scale(150, 800)):
+        case = gen_walk_case(rng) if i % 3 == 0 else gen_case(rng, True)
         try:
             f = oracle_case(case)
         except Exception as e:
